@@ -12,7 +12,11 @@ import (
 	"github.com/resgateio/resgate/server/mq"
 )
 
-func init() { timerqueue.VerifManual = true }
+func init() {
+	timerqueue.VerifManual = true
+	// extended (pre-response) timers are fired by the explorer too, see overlay/verif_timer.go.txt
+	rnats.VerifManualTimers = true
+}
 
 // Scenario is one adapter exploration: n concurrent requests, each with a
 // scripted server behaviour, plus an event subscription.
@@ -36,6 +40,9 @@ type reqModel struct {
 	gotAt     []time.Time
 	extArmed  time.Time
 	extMillis int
+	// xfired: the extended timer has expired but its function has not run yet
+	// (it runs on a goroutine of its own and may have to wait for the adapter's lock)
+	xfired bool
 }
 
 // Run executes one action sequence and returns the enabled actions after it
@@ -62,6 +69,8 @@ type Run struct {
 	Viol     []string
 	subs     map[int]interface{} // request index -> tq element (the *nats.Subscription)
 	dry      bool                // pure model run: no I/O (used to enumerate action sequences)
+	ext      map[int]*rnats.VerifTimer // request index -> its current extended timer
+	newT     []*rnats.VerifTimer       // timers created since last looked at
 }
 
 // DryStart returns a run that only executes the model transitions.
@@ -103,7 +112,12 @@ func Start(sc *Scenario) (*Run, error) {
 	if err != nil {
 		return nil, err
 	}
-	r := &Run{sc: sc, srv: srv, closedCB: make(chan error, 4), subs: map[int]interface{}{}}
+	r := &Run{sc: sc, srv: srv, closedCB: make(chan error, 4), subs: map[int]interface{}{}, ext: map[int]*rnats.VerifTimer{}}
+	rnats.VerifOnTimer = func(t *rnats.VerifTimer) {
+		r.mu.Lock()
+		r.newT = append(r.newT, t)
+		r.mu.Unlock()
+	}
 	for range sc.Scripts {
 		r.reqs = append(r.reqs, &reqModel{state: ""})
 	}
@@ -203,6 +217,14 @@ func (r *Run) Enabled() []string {
 			out = append(out, "evt")
 		}
 	}
+	for i, q := range r.reqs {
+		if q.state == "extended" {
+			out = append(out, fmt.Sprintf("xfire:%d", i))
+		}
+		if q.xfired {
+			out = append(out, fmt.Sprintf("xrun:%d", i))
+		}
+	}
 	if len(r.order) > 0 {
 		out = append(out, fmt.Sprintf("pop:%d", r.order[0]))
 	}
@@ -293,31 +315,48 @@ func (r *Run) Do(a string) {
 			}
 			r.modelReply(idx, "ERR "+mq.ErrNoResponders.Error())
 		case strings.HasPrefix(msg, "wait:"):
-			ms := 0
-			fmt.Sscan(msg[5:], &ms)
-			if !r.dry {
-				time.Sleep(time.Duration(ms) * time.Millisecond)
-			}
-			// a short extension elapses during the wait
-			if q.state == "extended" && q.shortExt && ms > q.extMillis {
-				q.state, q.expect = "done", "ERR "+mq.ErrRequestTimeout.Error()
-			}
+			// time passing is an explorer action now (xfire); nothing to do
 		case strings.HasPrefix(msg, "pre:"):
 			ms := 0
 			fmt.Sscan(msg[4:], &ms)
 			if !r.dry {
 				r.srv.Send(q.inbox, []byte(fmt.Sprintf(`timeout:"%d"`, ms)), "")
 			}
+			had := q.state
 			switch q.state {
 			case "pending":
 				q.state = "extended"
 				r.removeOrder(idx)
 				q.extArmed, q.extMillis = time.Now(), ms
-				q.shortExt = ms < 1000
 			case "extended":
 				// the new pre-response replaces the previous extended timer
 				q.extArmed, q.extMillis = time.Now(), ms
-				q.shortExt = ms < 1000
+			case "xfired", "popped":
+				// the timeout is already due (timer fired / element popped):
+				// nothing is re-armed, the request will time out
+			}
+			if !r.dry {
+				r.settle()
+				r.mu.Lock()
+				nt := r.newT
+				r.newT = nil
+				r.mu.Unlock()
+				switch {
+				case had == "pending" || had == "extended":
+					if len(nt) != 1 {
+						r.fail("pre-response for request %d in state %s armed %d timers, expected 1", idx, had, len(nt))
+					} else {
+						if old := r.ext[idx]; old != nil && old.Live() {
+							r.fail("pre-response for request %d left the previous extended timer armed", idx)
+						}
+						r.ext[idx] = nt[0]
+						if nt[0].D != time.Duration(ms)*time.Millisecond {
+							r.fail("pre-response for request %d armed a timer of %v, expected %dms", idx, nt[0].D, ms)
+						}
+					}
+				case len(nt) != 0:
+					r.fail("pre-response for request %d in state %s armed a timer although the timeout is already due or the request complete", idx, had)
+				}
 			}
 		}
 		if r.dry {
@@ -331,6 +370,25 @@ func (r *Run) Do(a string) {
 		}
 		r.srv.Send("event.test.model.change", []byte(fmt.Sprintf(`{"seq":%d}`, r.evSent)), "")
 		r.settle()
+	case "xfire":
+		q := r.reqs[idx]
+		q.state, q.xfired = "xfired", true
+		if !r.dry {
+			if t := r.ext[idx]; t == nil || !t.Fire() {
+				r.fail("request %d: the extended timer the model expects to be armed is not", idx)
+			}
+		}
+	case "xrun":
+		q := r.reqs[idx]
+		q.xfired = false
+		if q.state == "xfired" {
+			q.state, q.expect = "done", "ERR "+mq.ErrRequestTimeout.Error()
+		}
+		if !r.dry {
+			if t := r.ext[idx]; t != nil {
+				t.Run()
+			}
+		}
 	case "pop":
 		v := r.subs[idx]
 		if r.dry || r.tq.VerifPop(v) {
@@ -413,12 +471,9 @@ func (r *Run) modelReply(idx int, v string) {
 		q.state, q.expect = "done", v
 	case "popped":
 		q.state, q.expect = "done", v
-	case "extended":
-		if q.shortExt {
-			q.state, q.expect = "done", "EITHER "+v
-		} else {
-			q.state, q.expect = "done", v
-		}
+	case "extended", "xfired":
+		// a fired timer whose function has not run yet loses against the reply
+		q.state, q.expect = "done", v
 	}
 }
 
@@ -431,7 +486,7 @@ func (r *Run) invariant(after string) {
 	want := 0
 	short := false
 	for _, q := range r.reqs {
-		if q.state == "pending" || q.state == "popped" || q.state == "extended" {
+		if q.state == "pending" || q.state == "popped" || q.state == "extended" || q.state == "xfired" {
 			want++
 		}
 		if q.shortExt {
@@ -469,6 +524,14 @@ func (r *Run) Finish() []string {
 		}
 		for len(r.poppedI) > 0 {
 			r.Do(fmt.Sprintf("fire:%d", r.poppedI[0]))
+		}
+		for i, q := range r.reqs {
+			if q.state == "extended" {
+				r.Do(fmt.Sprintf("xfire:%d", i))
+			}
+			if q.xfired {
+				r.Do(fmt.Sprintf("xrun:%d", i))
+			}
 		}
 		// short extended timers run on the real clock
 		dl := time.Now().Add(3 * time.Second)
